@@ -33,6 +33,7 @@ type vpScan struct {
 	nextSecond int
 	closed1, closed2 bool
 	ordered   bool
+	dead1     bool
 	fault     int // see VPH_scan
 	faultPos  int
 }
@@ -69,6 +70,11 @@ func vpInstallScanStubs(sc *vpScan) {
 		return nil
 	})
 	vp_Stub("(*github.com/github/git-sizer/git.ObjectIter).AddRoot", func(it *git.ObjectIter, oid git.OID) error {
+		if sc.dead1 {
+			// the pipeline is gone and nobody reads the oid channel any more; the caller's
+			// context is never cancelled, so this send would never complete
+			vp_BlockForever("AddRoot on a pipeline that has already failed")
+		}
 		if sc.fault == vpfAddRoot && len(sc.addRoots) == sc.faultPos {
 			return errVPFault
 		}
@@ -100,8 +106,12 @@ func vpInstallScanStubs(sc *vpScan) {
 		}
 		i := sc.nextFirst
 		if sc.fault == vpfFirstErr && i == sc.faultPos {
+			// rev-list died: if that happens before anything was listed, the feeder may not even have started
+			sc.dead1 = true
 			return git.BatchHeader{ObjectType: "missing"}, false, errVPFault
 		}
+		// output appears only once roots have been fed: the reader waits for the feeder
+		vp_Yield()
 		if i >= len(sc.listing) {
 			if sc.fault == vpfWaitErr1 {
 				return git.BatchHeader{ObjectType: "missing"}, false, errVPFault // rev-list / cat-file exited non-zero
@@ -128,6 +138,7 @@ func vpInstallScanStubs(sc *vpScan) {
 	})
 	vp_Stub("(*github.com/github/git-sizer/git.BatchObjectIter).Close", func(it *git.BatchObjectIter) { sc.closed2 = true })
 	vp_Stub("(*github.com/github/git-sizer/git.BatchObjectIter).Next", func(it *git.BatchObjectIter) (git.ObjectRecord, bool, error) {
+		vp_Yield() // answers appear only after the requests were written
 		i := sc.nextSecond
 		missing := git.ObjectRecord{BatchHeader: git.BatchHeader{ObjectType: "missing"}}
 		if i >= len(sc.requests) {
@@ -280,6 +291,8 @@ func VPH_scan() {
 		}
 	}
 	vpInstallScanStubs(sc)
+	// two schedules: goroutines run at spawn, or only when the scanning goroutine blocks/yields
+	vp_LazyGoroutines(vp_Choice("lazy-goroutines", 2) == 1)
 
 	var hs HistorySize
 	var err error
